@@ -206,6 +206,9 @@ impl Prop for C15 {
             }
             for n in [1u64, 2, 3, 5, 8, 13] {
                 v.push(json!({"f": "lib-use", "n": n, "seed": mix(&[seed, 0xC15B, stream, n])}));
+                for which in 0..=n {
+                    v.push(json!({"f": "keypair-consistent", "hseed": seed, "stream": stream, "ty": format!("KeyPair<{}>", n), "which": which}));
+                }
             }
             // channel id text form
             for k in 0..4u64 {
@@ -230,6 +233,7 @@ impl Prop for C15 {
         match case["f"].as_str().unwrap_or("") {
             "atom" => run_atom(&mut o, case),
             "chanid-text" => run_chanid(&mut o, case),
+            "keypair-consistent" => run_keypair_consistent(&mut o, case),
             "lib-use" => match case["n"].as_u64().unwrap_or(0) {
                 1 => lib_use::<1>(&mut o, case["seed"].as_u64().unwrap_or(0)),
                 2 => lib_use::<2>(&mut o, case["seed"].as_u64().unwrap_or(0)),
@@ -417,6 +421,47 @@ fn lib_use<const N: usize>(o: &mut Outcome, seed: u64) {
     o.nontrivial = true;
     o.shape = mix(&[0xC15B, N as u64, seed]);
     o.log_hash = mix(&[o.shape, o.violations.len() as u64]);
+}
+
+/// Several atoms of a key pair replaced *together* so that the two halves stay consistent with
+/// each other while violating the invariant: y_k = 0 with Y_k = Y~_k = identity, or x = 0 with
+/// X1 = X~ = identity. No such encoding may decode.
+fn run_keypair_consistent(o: &mut Outcome, case: &Value) {
+    let seed = case["hseed"].as_u64().unwrap_or(0);
+    let stream = case["stream"].as_u64().unwrap_or(0);
+    let h = harvest::cached(seed, stream, MSPEC);
+    let tyname = case["ty"].as_str().unwrap_or("KeyPair<5>");
+    let s = h.iter().find(|s| s.ty == tyname).unwrap_or_else(|| crate::harness_error("C15: no such key pair sample"));
+    let ty = registry().index(&s.ty);
+    let which = case["which"].as_u64().unwrap_or(0) as usize;
+    let mut t = s.trace.clone();
+    let zero = [0u8; 32];
+    let n = (0..).take_while(|i| t.find(&format!("sk.ys[{}]", i)).is_some()).count();
+    let what = if which >= n {
+        t.set("sk.x", &zero);
+        t.set("sk.x1", &refc::bad::g1_identity());
+        t.set("pk.x2", &refc::bad::g2_identity());
+        "x = 0, X1 = X~ = identity".to_string()
+    } else {
+        t.set(&format!("sk.ys[{}]", which), &zero);
+        t.set(&format!("pk.y1s[{}]", which), &refc::bad::g1_identity());
+        t.set(&format!("pk.y2s[{}]", which), &refc::bad::g2_identity());
+        format!("y_{} = 0, Y_{} = Y~_{} = identity", which, which, which)
+    };
+    o.events = 1;
+    o.bump("fault.atom.consistent-degenerate-key");
+    match in_process_decode(ty, &t.bytes) {
+        Ok(Ok(_)) => o.violate("accepted-zero-secret-scalar", &format!("{}:consistent-degenerate", strip_n(&s.ty)), format!("{} with {} decodes", s.ty, what)),
+        Ok(Err(_)) => o.bump("probe.refused"),
+        Err(_) => o.bump("probe.decode_panicked"),
+    }
+    o.nontrivial = true;
+    o.shape = mix(&[0xC15C, ty as u64, stream, which as u64]);
+    o.log_hash = mix(&[o.shape, o.violations.len() as u64]);
+}
+
+fn strip_n(t: &str) -> String {
+    t.chars().filter(|c| !c.is_ascii_digit()).collect()
 }
 
 fn run_chanid(o: &mut Outcome, case: &Value) {
